@@ -12,6 +12,9 @@ namespace amgcl { namespace mpi { template<> struct datatype_impl<symx::sym> { s
 #include <amgcl/mpi/relaxation/spai0.hpp>
 #include <amgcl/mpi/relaxation/gauss_seidel.hpp>
 #include <amgcl/mpi/relaxation/damped_jacobi.hpp>
+#include <amgcl/mpi/relaxation/ilu0.hpp>
+#include <amgcl/mpi/relaxation/chebyshev.hpp>
+#include <amgcl/mpi/relaxation/runtime.hpp>
 #include <amgcl/mpi/direct_solver/skyline_lu.hpp>
 #include <amgcl/mpi/partition/merge.hpp>
 #include <amgcl/mpi/solver/cg.hpp>
@@ -71,10 +74,22 @@ template<int B, bool SMOOTHED> static void coarsening_case(const Pattern &pb, hx
     std::vector<Vec> AP(n,Vec(nc*B,scalar(0))); for (int i=0;i<n;++i) for (int k=0;k<n;++k) if (!hx::is_zero_value(Ad[i][k])) for (ptrdiff_t j=0;j<nc*B;++j) AP[i][j]+=Ad[i][k]*Pd[k][j];
     for (ptrdiff_t a=0;a<nc*B;++a) for (ptrdiff_t b=0;b<nc*B;++b) { scalar t=0; for (int i=0;i<n;++i) t+=Rd[a][i]*AP[i][b]; cg.push_back(Cd[a][b]); float inv=1/over; cr.push_back(SMOOTHED ? t : t*scalar((double)inv)); }   /* scaled_galerkin(..., float s): the factor is the FLOAT 1/1.5f */
     hx::prove_eq_vec(std::string("distributed coarse matrix = ")+(SMOOTHED?"R A P":"(1/over_interp) R A P")+" (assembled over the ranks)", cg, cr); },coo); }
+// every distributed smoother is a splitting method for the GLOBAL matrix: the exact solution of A x = f is a fixed point of one pre- and one post-sweep on every rank
+// (the precondition of "converges for each distributed coarsening x relaxation x solver combination"; symbolic solution vector, concrete M-matrix)
+template<class P> static void set_type(P &, const std::string &) {} static void set_type(boost::property_tree::ptree &p, const std::string &nm) { p.put("type", nm.substr(nm.find('/')+1)); }
+template<class Rx> static void smoother_fixed_point_case(const std::string &nm, const Pattern &p, hx::Rng &rng, const std::vector<int> &rows, int R) { hx::CaseOptions coo; coo.max_paths=6; hx::run_case("smoother_fixed_point/"+nm+"/R"+std::to_string(R)+"/rows"+pname(rows)+"/"+p.name, [&]() {
+    hx::Rng r2(rng.s); SCrs A=hx::mmatrix(p,r2); int n=p.n; Vec xs=hx::sym_vector("xs",n,0.5); Vec f=hx::dense_mv(A,xs); std::vector<int> beg(R+1,0); for (int r=0;r<R;++r) beg[r+1]=beg[r]+rows[r]; Vec pre(n), post(n);
+#ifdef HX_SYM
+    symmpi::symx_reduce()=[](int op, void *acc, const void *in) { scalar a, b; memcpy(&a,acc,8); memcpy(&b,in,8); if (op==MPI_SUM) a=a+b; else if (op==MPI_PROD) a=a*b; else if (op==MPI_MAX) a = a<b ? b : a; else if (op==MPI_MIN) a = b<a ? b : a; else throw std::runtime_error("symmpi: unsupported reduction on symbolic scalars"); memcpy(acc,&a,8); };
+#endif
+    symmpi::run(R,[&](int rank) { mp::communicator comm(MPI_COMM_WORLD); int rb=beg[rank], re=beg[rank+1], nl=re-rb; auto loc=strip(A,rb,re); typedef mp::distributed_matrix<BE> DM; DM D(comm,*loc,nl); typename Rx::params rp; set_type(rp,nm); Rx rx(D,rp,BE::params()); D.move_to_backend(BE::params());
+        for (int post_=0;post_<2;++post_) { NV F(nl,false), X(nl,false), T(nl,false); for (int i=0;i<nl;++i) { F[i]=f[rb+i]; X[i]=xs[rb+i]; T[i]=hx::junk("t"+std::to_string(rb+i)); } if (post_) rx.apply_post(D,F,X,T); else rx.apply_pre(D,F,X,T); for (int i=0;i<nl;++i) (post_?post:pre)[rb+i]=X[i]; } });
+    hx::prove_eq_vec(nm+": the exact solution is a fixed point of the distributed pre-sweep", pre, xs); hx::prove_eq_vec(nm+": the exact solution is a fixed point of the distributed post-sweep", post, xs); },coo); }
+
 struct symx_rethrow_t {}; 
 int main(int argc, char **argv) {
     hx::parse_args(argc,argv); bool T=hx::thorough(); hx::Rng rng(hx::args().seed);
-    hx::encodes("mpi::make_solver<mpi::amg<builtin<scalar>, mpi::coarsening::{smoothed_aggregation,aggregation} (PMIS), mpi::relaxation::{spai0,damped_jacobi,gauss_seidel}, mpi::direct::skyline_lu, mpi::partition::merge>, mpi::solver::{cg,bicgstab,gmres}>");
+    hx::encodes("mpi::make_solver<mpi::amg<builtin<scalar>, mpi::coarsening::{smoothed_aggregation,aggregation} (PMIS), mpi::relaxation::{spai0,damped_jacobi,gauss_seidel,ilu0,chebyshev}, mpi::direct::skyline_lu, mpi::partition::merge>, mpi::solver::{cg,bicgstab,gmres}>");
     hx::assume_note("MPI stand-in as in C11 (threads under a global baton, FIFO matching, rendezvous collectives, sub-communicators by MPI_Comm_split); L-mode: concrete SPD M-matrices, vectors symbolic, inner coefficients cut");
     hx::assume_note("NOT decided: convergence of every distributed combination on SPD M-matrices (long floating-point runs), ParMETIS / PT-Scotch repartitioning and PaStiX (not installed); near-null-space reproduction; block value types in the coupled solve (block values are covered for the coarsening objects)");
     typedef mp::amg<BE,mp::coarsening::smoothed_aggregation<BE>,mp::relaxation::spai0<BE>,mp::direct::skyline_lu<scalar>,mp::partition::merge<BE>> A1; typedef mp::amg<BE,mp::coarsening::aggregation<BE>,mp::relaxation::damped_jacobi<BE>,mp::direct::skyline_lu<scalar>,mp::partition::merge<BE>> A2;
@@ -86,5 +101,8 @@ int main(int argc, char **argv) {
         if (T || k%2==1) { solve_case<mp::make_solver<A3,mp::solver::cg<BE>>>("sa+gs+cg",p,rng,pt,R,sp); solve_case<mp::make_solver<A1,mp::solver::cg<BE>>>("sa+spai0+cg-k2",p,rng,pt,R,sp2); } } }
     for (auto &p : std::vector<Pattern>{hx::band_pattern(6,1),hx::grid_pattern(3,2),hx::band_pattern(10,1),hx::grid_pattern(4,3)}) for (int R=1;R<=(T?4:3);++R) { std::vector<std::vector<int>> parts; compositions(p.n,R,{},parts); size_t k=0; for (auto &pt : parts) { ++k; bool onerow=false; for (int v : pt) onerow=onerow||v==1; if (!(T || R==1 || (p.n<=6 && k%3==1) || (onerow && k%5<2) || k%11==0)) continue;
         coarsening_case<1,false>(p,rng,pt,R); coarsening_case<1,true>(p,rng,pt,R); if (p.n<=6 || T) { coarsening_case<2,true>(p,rng,pt,R); if (k%2==0) coarsening_case<2,false>(p,rng,pt,R); } } }
+    for (auto &p : std::vector<Pattern>{hx::band_pattern(5,1),hx::grid_pattern(3,2)}) for (int R=1;R<=3;++R) { std::vector<std::vector<int>> parts; compositions(p.n,R,{},parts); size_t k=0; for (auto &pt : parts) { ++k; if (!(T || R==1 || k%4==1)) continue;
+        smoother_fixed_point_case<mp::relaxation::spai0<BE>>("spai0",p,rng,pt,R); smoother_fixed_point_case<mp::relaxation::damped_jacobi<BE>>("damped_jacobi",p,rng,pt,R); smoother_fixed_point_case<mp::relaxation::gauss_seidel<BE>>("gauss_seidel",p,rng,pt,R); smoother_fixed_point_case<mp::relaxation::ilu0<BE>>("ilu0",p,rng,pt,R); smoother_fixed_point_case<mp::relaxation::chebyshev<BE>>("chebyshev",p,rng,pt,R);
+        if (R>1) for (const char *t : {"gauss_seidel","damped_jacobi","ilu0","spai0","iluk"}) smoother_fixed_point_case<amgcl::runtime::mpi::relaxation::wrapper<BE>>(std::string("runtime/")+t,p,rng,pt,R); } }
     return hx::finish();
 }
